@@ -12,8 +12,8 @@ EXTENDS Resolve, Json
 
 Trace == ndJsonDeserialize("trace.ndjson")
 
-VARIABLES l, lines, recs, serial, memo
-vars == <<l, lines, recs, serial, memo>>
+VARIABLES l, lines, recs, serial, memo, cmpclause
+vars == <<l, lines, recs, serial, memo, cmpclause>>
 
 SetOf(s) == {s[i] : i \in 1..Len(s)}
 
@@ -83,7 +83,7 @@ CheckQ(e) ==
         (b1 # b2 /\ ~Same(e.r[b1], e.r[b2], e.q.exact)) => PrintT(<<"REJECT", l, b1, "C02:backends-differ", b2>>)
   /\ (e.q.cmp /\ e.qid \in DOMAIN memo) =>
         \A b \in DOMAIN e.r :
-           (b \in DOMAIN memo[e.qid] /\ ~Same(e.r[b], memo[e.qid][b], e.q.exact)) => PrintT(<<"REJECT", l, b, "C04:changed-by-foreign-edit">>)
+           (b \in DOMAIN memo[e.qid] /\ ~Same(e.r[b], memo[e.qid][b], e.q.exact)) => PrintT(<<"REJECT", l, b, cmpclause>>)
 
 CheckLoc(e) == \A b \in DOMAIN e.r : Report(b, JudgeLoc(e.q, e.r[b]))
 
@@ -117,7 +117,9 @@ CheckFreq(e) == \A b \in DOMAIN e.counts : Report(b, JudgeFreq(e.q, e.n, e.count
 
 CheckFile(e) == \A b \in DOMAIN e.comperr : PrintT(<<"REJECT", l, b, "C01:compile-failed">>)
 
-Init == l = 1 /\ lines = {} /\ recs = {} /\ serial = 0 /\ memo = <<>>
+\* the paired comparison (memo) serves C04 (file vs edited file) and C12 (cache off vs cache on): the file line names the clause
+DefaultClause == "C04:changed-by-foreign-edit"
+Init == l = 1 /\ lines = {} /\ recs = {} /\ serial = 0 /\ memo = <<>> /\ cmpclause = DefaultClause
 
 Next ==
   /\ l <= Len(Trace)
@@ -128,16 +130,17 @@ Next ==
               /\ serial' = e.serial
               /\ recs' = Records(SetOf(e.lines), e.serial)
               /\ memo' = IF e.keep THEN memo ELSE <<>>
+              /\ cmpclause' = IF e.clause = "" THEN DefaultClause ELSE e.clause
          [] e.ev = "q" ->
               /\ CheckQ(e)
               /\ memo' = IF e.q.cmp THEN memo ELSE (e.qid :> e.r) @@ memo
-              /\ UNCHANGED <<lines, recs, serial>>
+              /\ UNCHANGED <<lines, recs, serial, cmpclause>>
          [] e.ev = "freq" ->
               /\ CheckFreq(e)
-              /\ UNCHANGED <<lines, recs, serial, memo>>
+              /\ UNCHANGED <<lines, recs, serial, memo, cmpclause>>
          [] e.ev = "loc" ->
               /\ CheckLoc(e)
-              /\ UNCHANGED <<lines, recs, serial, memo>>
+              /\ UNCHANGED <<lines, recs, serial, memo, cmpclause>>
   /\ l' = l + 1
 
 Done == l = Len(Trace) + 1 => PrintT(<<"ACCEPTED", Len(Trace)>>)
